@@ -256,6 +256,10 @@ func (w *world) buildCerts(now int64) {
 		case "soon":
 			s.ValidAfter, s.ValidBefore = uint64(now+25), uint64(now+7200)
 			w.soonVA = now + 25
+		case "inverted-past": // an empty window (it ends before it starts), both ends in the past
+			s.ValidAfter, s.ValidBefore = uint64(now-3600), uint64(now-7200)
+		case "inverted-future":
+			s.ValidAfter, s.ValidBefore = uint64(now+7200), uint64(now+3600)
 		case "zero":
 			s.ValidAfter, s.ValidBefore = 0, 0
 		case "aftermax":
@@ -1338,6 +1342,9 @@ func (w *world) step(i int, op Op) error {
 		}
 		if len(op.Body) == 0 || !knownCodes[int(op.Body[0])] {
 			want := append([]byte{EchoMark}, op.Body...)
+			if w.upLocked {
+				want = []byte{CodeFailure} // a locked underlying agent refuses whatever it is sent; the refusal is relayed as it is
+			}
 			if !bytes.Equal(reply, want) {
 				return Errf("%s: reply of %d bytes differs from what the underlying agent sent (%d bytes)", where, len(reply), len(want))
 			}
